@@ -45,6 +45,10 @@ OPTIMIZERS = {
                             "learning_rate": {"sched": "lin"},
                             "decoupled_learning_rate": False},
                      "rep", SHAPES, {"x64": True}),
+    # the training process switched x64 on after importing the library, the
+    # resuming process (fresh interpreter) has it on from the start
+    "ds_full_x64late": ("ds", {"preconditioning_compute_steps": 2}, "rep",
+                        SHAPES, {"x64": True, "x64_late": True}),
     "ds_quant_pmap": ("ds", {"best_effort_memory_usage_reduction": True},
                       "pmap", SHAPES),
     "ds_compressed": ("ds", {"compression_rank": 1, "block_size": 8},
@@ -64,6 +68,11 @@ OPTIMIZERS = {
     "ds_lobpcg": ("ds", {"lobpcg_topk_precondition": 1, "block_size": 8},
                   "rep", SHAPES_C),
     "sm3": ("sm3", {"beta1": 0.9, "beta2": 0.999}, "rep", SHAPES),
+    # stepped op by op, restored leaves used exactly as the deserializer
+    # returns them (NumPy arrays): the int8 momentum goes through
+    # QuantizedValue.to_float in Python on every call
+    "sm3_eager": ("sm3", {"beta1": 0.9, "beta2": 0.999}, "rep", SHAPES,
+                  {"jit": False}),
     "tf_shampoo": ("tf", {"block_size": 2, "merge_dims": 2,
                           "update_preconditioners_freq": 2}, "rep", SHAPES),
     "tf_sketchy": ("tf", {"second_order_type": "sketchy", "sketchy_rank": 2,
@@ -89,9 +98,12 @@ def plan(tier, seed):
                   # quick: fresh-process resume for three optimizers at crash
                   # points 0 and 1; thorough: all optimizers, points 0, 1, T
                   "cross_process": (tier != "quick" or name in (
-                      "ds_full", "ds_sharded", "tf_sketchy")),
+                      "ds_full", "ds_sharded", "tf_sketchy",
+                      "ds_full_x64late")),
                   "cross_points": [0, 1] if tier == "quick" else [0, 1, d],
-                  "profile": {"x64": bool(opts.get("x64"))},
+                  "profile": dict({"x64": bool(opts.get("x64"))},
+                                  **({"x64_late": True}
+                                     if opts.get("x64_late") else {})),
                   "weight": 2 ** d * (4 if opts.get("jit") is False else 1)})
   return {
       "tasks": tasks,
@@ -128,7 +140,7 @@ class Machine:
       from mc.props import c07
       opt = c07.build(fam, cfg)("rep", 1)
       params = {k: jnp.asarray(v) for k, v in self.params_np.items()}
-      upd = jax.jit(opt.update)
+      upd = jax.jit(opt.update) if opts.get("jit", True) else opt.update
       self.init = lambda: opt.init(params)
       self.step = lambda s, g: upd({k: jnp.asarray(v) for k, v in g.items()},
                                    s, params)
